@@ -33,6 +33,9 @@ type progCase struct {
 	Repeat    int    `json:"repeat"`
 	TimeoutMs int    `json:"timeout_ms"`
 	Fids      bool   `json:"fids"` // report FIDs still registered after the program
+	// Pre: programs run before Src, each as a module of its own (definitions stay: functions, aliases and privates are
+	// session-wide tables keyed by module); their output is dropped
+	Pre []string `json:"pre"`
 }
 
 type fidEvent struct {
@@ -368,6 +371,9 @@ func runPrograms(args []string) int {
 			n = 1
 		}
 		res := progResult{ID: c.ID, Status: "done"}
+		for _, pre := range c.Pre {
+			runOneProgram(pre, to, false)
+		}
 		for k := 0; k < n; k++ {
 			if *lcevents != "" {
 				lcMark("begin", c.ID)
